@@ -566,6 +566,8 @@ func runC19(c *Ctx) {
 	clauseReuseOnlyVerifiedLayer(c, "C19.f")
 	clauseHelperFailureSurfaces(c, "C19.g")
 	clauseMediaTypeBySharedPredicate(c, "C19.h")
+	clauseTOCDigestOfWrittenBytes(c, "C19.i")
+	clauseCompressorPerCall(c, "C19.j")
 	c.assume("containerd's converter invokes one ConvertFunc value for all layers of a manifest concurrently (core/images/converter convertManifest uses an errgroup)")
 	c.assume("content.Writer.Digest() is the digest of the bytes written; estargz.Blob.TOCDigest/DiffID are final after Close")
 }
